@@ -16,24 +16,28 @@ def runner_lean(ctx):
     return ok
 
 
-def check_C01(ctx):
-    runner_lean(ctx)
-    rng = random.Random(ctx.seed * 1000 + 1)
-    bench = Bench(ctx)
-    n = sizes(ctx, 60, 1500)
-    scens = []
-    for mode in ("fork", "inproc"):
-        for s in small_scope(rng, sizes(ctx, 25, 300)):
-            s.mode = mode; scens.append(s)
-        for _ in range(n // 2):
-            scens.append(Scen(gen_tree(rng), mode=mode))
-    reporters = ["text", "quiet", "cute"]
-    dis, orf = explore(ctx, bench, scens, reporters, oracle_C01, "C01")
-    report(ctx, bench, dis, orf, oracle_C01, "C01")
-    # Failed checks that reach the channel outside a test's own bracket - in a suite's legacy fixture run by the reporting
-    # process around a sub-suite, or in an exit handler of the test's process, after its completion notice - are failed
-    # checks of the run all the same. The model treats suite fixtures as logging only, so this family is judged by the
-    # property's oracle alone: the verdict must be failure under every reporter.
+def generated_obligations(ctx, render, namespace, only, what):
+    """Run one of the translators of translate/, let Lean check the generated file, record each generated theorem as an obligation."""
+    text, thms, problems = render()
+    path = os.path.join(ctx.work, "Gen" + namespace.split(".")[-1] + ".lean")
+    open(path, "w").write(text)
+    with LakeLock():
+        res = sh(["lake", "env", "lean", path], cwd=LEAN)
+    for site, why in problems:
+        if only is None or any(o in site for o in only) or site in ("verdict",):
+            ctx.oblige(f"{what}: {site} extracted from the source", False, why)
+    for thm in thms:
+        if only is not None and thm not in only:
+            continue
+        m = re.search(r"'%s\.%s' (does not depend on any axioms|depends on axioms: \[([^\]]*)\])" % (re.escape(namespace), thm), res.stdout)
+        axs = [a.strip() for a in (m.group(2) or "").split(",") if a.strip()] if m else ["?"]
+        ok = m is not None and all(a in ALLOWED_AXIOMS for a in axs)
+        ctx.oblige(f"generated obligation {namespace}.{thm} ({what}, regenerated from /repo's sources)", ok, "" if ok else res.stdout[-500:])
+    ctx.coverage.setdefault("generated_sha", hashlib.sha256(text.encode()).hexdigest()[:16])
+
+
+def outside_bracket_scens():
+    """Scenarios in which a failed check reaches the channel outside a test's own bracket: (scenario, description)."""
     late = []
     for pos in ("setup", "teardown"):
         fx = (["F"], []) if pos == "setup" else ([], ["F"])
@@ -52,6 +56,30 @@ def check_C01(ctx):
         elif shape == 2: root = S("top", items=[S("inner", items=[T("a", body=["P"]), z])])
         else: root = S("top", items=[S("inner", items=[z]), T("b", body=["P"])])
         late.append((Scen(root, mode="fork"), "a failed check in an exit handler of the last test's process, after its completion notice"))
+    return late
+
+
+def check_C01(ctx):
+    runner_lean(ctx)
+    import verdict as vd
+    generated_obligations(ctx, vd.render, "Cgreen.Gen.Verdict", ["suite_verdict", "single_verdict"], "the verdict expressions of run_test_suite() and run_single_test()")
+    rng = random.Random(ctx.seed * 1000 + 1)
+    bench = Bench(ctx)
+    n = sizes(ctx, 60, 1500)
+    scens = []
+    for mode in ("fork", "inproc"):
+        for s in small_scope(rng, sizes(ctx, 25, 300)):
+            s.mode = mode; scens.append(s)
+        for _ in range(n // 2):
+            scens.append(Scen(gen_tree(rng), mode=mode))
+    reporters = ["text", "quiet", "cute"]
+    dis, orf = explore(ctx, bench, scens, reporters, oracle_C01, "C01")
+    report(ctx, bench, dis, orf, oracle_C01, "C01")
+    # Failed checks that reach the channel outside a test's own bracket - in a suite's legacy fixture run by the reporting
+    # process around a sub-suite, or in an exit handler of the test's process, after its completion notice - are failed
+    # checks of the run all the same. The model treats suite fixtures as logging only, so this family is judged by the
+    # property's oracle alone: the verdict must be failure under every reporter.
+    late = outside_bracket_scens()
     lobs = bench.run_many([(sc.text(), r) for sc, _ in late for r in REPORTERS_ALL])
     k = 0; lshown = 0
     for sc, lab in late:
@@ -397,6 +425,8 @@ def reporter_view(o, reporter, scen):
 
 def check_C17(ctx):
     runner_lean(ctx)
+    import verdict as vd
+    generated_obligations(ctx, vd.render, "Cgreen.Gen.Verdict", ["folding_after_the_last_read"], "what each reporter's finish_suite does to the counters")
     rng = random.Random(ctx.seed * 1000 + 17)
     bench = Bench(ctx)
     scens = [s for s in small_scope(rng, sizes(ctx, 40, 500))] + [Scen(gen_tree(rng, max_tests=8)) for _ in range(sizes(ctx, 50, 1200))]
@@ -445,7 +475,22 @@ def check_C17(ctx):
                 shown.add(key)
                 f = facts_of(s, m)
                 ctx.violation("[C17] " + "; ".join(errs[:3]), "# run under every reporter: harness/scenario_run <file> <reporter> <outdir>\n" + s.text(), found_input=True, facts=f)
-    ctx.coverage["correspondence"] = {"cases": len(obs), "disagreements": ndis, "oracle_evaluations": len(scens)}
+    # failed checks outside a test's bracket (suite fixtures run by the reporting process, exit handlers): every reporter must
+    # come to the same verdict and the same number of failures (judged among the reporters; the runner model does not cover these)
+    late = outside_bracket_scens()
+    lobs = bench.run_many([(sc.text(), r) for sc, _ in late for r in reps])
+    k = 0
+    for sc, lab in late:
+        row = {}
+        for r in reps:
+            row[r] = lobs[k]; k += 1
+        verdicts = {r: status_of(o) for r, o in row.items()}
+        fails = {r: int(observed_totals(row[r], r)[1]) for r in ("text", "cute") if observed_totals(row[r], r)}
+        if (len(set(verdicts.values())) > 1 or len(set(fails.values())) > 1) and len(shown) < 8:
+            shown.add(lab[:40] + sc.mode)
+            ctx.violation(f"[C17] {lab}: the reporters disagree: verdicts {verdicts}, failures counted {fails}", "# run under every reporter: harness/scenario_run <file> <reporter> <outdir>\n" + sc.text(),
+                          found_input=True, facts={"outside_bracket": True})
+    ctx.coverage["correspondence"] = {"cases": len(obs) + len(lobs), "disagreements": ndis, "oracle_evaluations": len(scens) + len(late)}
     ctx.oblige("correspondence C17: model and implementation agree under every reporter", ndis == 0, f"{ndis} disagreements")
     ctx.coverage["samples"] = sample_of(scens)
     ctx.coverage["evaluations"] = len(obs)
@@ -2190,6 +2235,22 @@ def check_C11(ctx):
                     viol(("suite", rep), f"{rep} reporter: testsuite names {[x[:40] for x in suites_got]} for suites {[x[:40] for x in suites_want]}", case, {"rep": rep, "kind": "names"})
     nB = len(obs)
 
+    # ---- (E) failed checks outside a test's bracket (suite fixtures run by the reporting process, exit handlers): the reports
+    # are still written completely: well formed, one testcase per test ----
+    late = outside_bracket_scens()
+    eobs = bench.run_many([(sc.text(), r) for sc, _ in late for r in XML_REPS], env=sig_env)
+    k = 0
+    for sc, lab in late:
+        for rep in XML_REPS:
+            o = eobs[k]; k += 1
+            case = f"# reporter: {rep}   harness/scenario_run <file> {rep} <outdir>\n" + sc.text()
+            if crashed(o) or status_of(o) not in ("0", "1"):
+                viol(("late-crash", rep), f"{rep} reporter, {lab}: " + (crash_text(o) if crashed(o) else f"the run ended with {status_of(o)}: {o.stderr[-200:]!r}"), case, {"crash": True, "rep": rep, "outside_bracket": True}); continue
+            docs = xml_docs(o)
+            bad = [(f_, err) for f_, _, err, _ in docs if err]
+            ntc = sum(len(walk_cases(root)) for _, root, err, _ in docs if not err)
+            if bad or ntc != len(list(sc.root.tests())):
+                viol(("late-wf", rep), f"{rep} reporter, {lab}: " + (f"{bad[0][0]} is not well-formed XML ({bad[0][1]})" if bad else f"{ntc} testcase elements for {len(list(sc.root.tests()))} tests"), case, {"malformed": True, "rep": rep, "outside_bracket": True})
     # ---- (D) volume: more tests than file descriptors, more suites than file descriptors, many failures in one test ----
     vol = []
     nt = sizes(ctx, 60, 200)
